@@ -11,7 +11,7 @@ git -C $W/repo checkout -q --detach $(git -C /repo rev-parse HEAD); git -C $W/re
 ./setup.sh >/dev/null 2>&1
 names=${@:-$(ls /verif/seeded)}
 for S in $names; do
-  P=${S%%-*}
+  P=$(python3 -c "import json,sys;print(json.load(open('/verif/seeded/$S/meta.json')).get('check') or '${S%%-*}')")
   if ! git -C $W/repo apply /verif/seeded/$S/patch.diff 2>/dev/null; then echo "$S APPLY-FAILED"; continue; fi
   out=$(timeout 1500 ./check $P 2>&1 | grep -E "^(VIOLATION|OK property|INFRA)" | head -4)
   git -C $W/repo checkout -- . ; git -C $W/repo clean -fdq
